@@ -7,8 +7,8 @@ from harness import cbuild
 from harness.core import Sub, Violation, REPO, VERIF, Ctx, HarnessError
 
 RULE = ("histories of 1..70 operations against the unmodified firmware tdma_sched.c (ASan/UBSan): tdma_schedule(offset 0..24, one of "
-        "6 callbacks, p1, p2, p3, priority in int16), tdma_schedule_set (sets of 1..6 frames with 0..3 items per frame, "
-        "end-of-frame / end-of-set markers, own flags), advance, execute, reset, flag scan; the ring start position is randomised "
+        "7 callbacks (one of which schedules a follow-up item 0..3 frames ahead when it runs), p1, p2, p3, priority in int16), tdma_schedule_set (sets of 1..6 frames with 0..3 items per frame, "
+        "end-of-frame / end-of-set markers, own flags), advance, execute, reset (also 256 times in a row), flag scan; the ring start position is randomised "
         "by 0..60 initial advances; half of the histories execute on every frame. Oracle: RingModel (25 buckets x 8 items) - after "
         "every execute the multiset of recorded calls (callback, p1, p2, p3) equals the model's bucket, priorities are "
         "non-decreasing in call order, the return value is the item count, a second execute in the same frame runs nothing; "
@@ -17,7 +17,7 @@ RULE = ("histories of 1..70 operations against the unmodified firmware tdma_sche
         "index wrapped, or a set spanning the wrap.")
 LEVEL = "exploration"
 ASSUMPTIONS = ["items of a set that overflowed midway, and items of the current bucket at reset, may or may not remain (the property only fixes the error and that nothing else is disturbed)",
-               "callbacks report success and do not schedule re-entrantly", "compiled for x86-64 by clang"]
+               "callbacks report success; one callback kind schedules a follow-up item 0..3 frames ahead (the scheduler documents that, and that priorities do not apply to items added to the running frame)", "compiled for x86-64 by clang"]
 
 NB, CAP = 25, 8
 _d = {}
@@ -48,15 +48,15 @@ PRIO = st.one_of(st.sampled_from([-32768, -1, 0, 1, 32767, 5, 5, -5]), st.intege
 
 @st.composite
 def op_st(draw, every_frame):
-    k = draw(st.sampled_from(["S"] * 8 + ["T"] * 3 + (["F"] * 5 if every_frame else ["A"] * 4 + ["X"] * 4) + ["R", "G"]))
+    k = draw(st.sampled_from(["S"] * 8 + ["T"] * 3 + (["F"] * 5 if every_frame else ["A"] * 4 + ["X"] * 4) + ["R", "G"] + (["R256"] if draw(st.integers(0, 3)) == 0 else [])))
     if k == "S":
-        return ("S", draw(st.one_of(st.integers(0, 24), st.sampled_from([0, 1, 2, 3, 24]))), draw(st.integers(0, 5)), draw(st.integers(0, 255)), draw(st.integers(0, 255)),
+        return ("S", draw(st.one_of(st.integers(0, 24), st.sampled_from([0, 1, 2, 3, 24]))), draw(st.sampled_from([0, 1, 2, 3, 4, 5, 6, 6])), draw(st.integers(0, 255)), draw(st.integers(0, 255)),
                 draw(st.integers(0, 65535)), draw(PRIO))
     if k == "T":
         items = []
         for fr in range(draw(st.integers(1, 6))):
             for _ in range(draw(st.integers(0, 3))):
-                items.append(("i", draw(st.integers(0, 5)), draw(st.integers(0, 255)), draw(st.integers(0, 255)), draw(PRIO), draw(st.integers(0, 3))))
+                items.append(("i", draw(st.sampled_from([0, 1, 2, 3, 4, 5, 6])), draw(st.integers(0, 255)), draw(st.integers(0, 255)), draw(PRIO), draw(st.integers(0, 3))))
             items.append(("f",))
         if draw(st.booleans()):
             items.pop()          # the last end-of-frame marker is optional
@@ -80,6 +80,8 @@ def expand(ops):
     for o in ops:
         if o[0] == "F":       # "one frame": execute, then advance
             out += [("X",), ("A",)]
+        elif o[0] == "R256":  # the scheduler is reset 256 times in a row (e.g. repeated cell re-selection attempts)
+            out += [("R",)] * 256
         else:
             out.append(tuple(o))
     return out
@@ -180,13 +182,44 @@ def oracle(case):
             executed_in_frame = False
         elif o[0] == "X":
             rc, n = int(t[1]), int(t[2])
-            calls = [tuple(int(v) for v in c.split(":")) for c in t[3:]]
+            raw_calls = [tuple(int(v) for v in c.split(":")) for c in t[3:]]
+            calls = [c[:4] for c in raw_calls]
             b = buckets[cur]
             buckets[cur] = []
             if degraded:
                 continue
             if rc != n or n != len(calls):
                 raise Violation("c08:execute-return-value", "executed %d callbacks, returned %d" % (n, rc))
+            # follow-up items scheduled by callback 6 while the frame executes (in call order)
+            in_cur = len(b)                 # the bucket's item count is only cleared when execute() is done
+            spawned_here = []
+            for c in raw_calls:
+                if c[0] != 6:
+                    continue
+                off = c[2] & 3
+                item = {"cb": 0, "p1": c[1], "p2": c[2], "p3": c[3], "prio": 0, "maybe": False, "spawned": True}
+                if off == 0:
+                    full = in_cur >= CAP
+                else:
+                    tb = buckets[(cur + off) % NB]
+                    lo_, hi_ = sum(1 for x in tb if not x["maybe"]), len(tb)
+                    if lo_ < CAP <= hi_:
+                        degraded = True
+                        break
+                    full = lo_ >= CAP
+                if full != (c[4] == -1):
+                    raise Violation("c08:reentrant-schedule-return", "callback scheduling %d frames ahead into a bucket of %s items got rc=%d" % (
+                        off, in_cur if off == 0 else len(buckets[(cur + off) % NB]), c[4]))
+                if full:
+                    continue
+                if off == 0:
+                    in_cur += 1
+                    spawned_here.append(item)
+                else:
+                    buckets[(cur + off) % NB].append(item)
+            if degraded:
+                continue
+            b = b + spawned_here
             certain = sorted((x["cb"], x["p1"], x["p2"], x["p3"]) for x in b if not x["maybe"])
             allowed = sorted((x["cb"], x["p1"], x["p2"], x["p3"]) for x in b)
             got = sorted(calls)
@@ -203,20 +236,24 @@ def oracle(case):
                     missing.remove(g)
             if missing:
                 raise Violation("c08:item-not-run", "bucket %d: %r scheduled for this frame did not run (ran %r)" % (cur, missing, got))
-            # ascending priority
+            # ascending priority among the items that were in the bucket when execute() started
             prios = []
-            pool = list(b)
-            for c in calls:
+            pool = [x for x in b if not x.get("spawned")]
+            ambiguous = False
+            for c in calls[:len(pool)]:
                 cand = [x for x in pool if (x["cb"], x["p1"], x["p2"], x["p3"]) == c]
-                # an item is identified by its parameters; with duplicates take the lowest remaining priority
+                if not cand:
+                    ambiguous = True      # a follow-up item identical to an original one ran in between
+                    break
                 x = min(cand, key=lambda y: y["prio"])
                 pool.remove(x)
                 prios.append(x["prio"])
-            # duplicates with different priorities make the attribution ambiguous: compare as sorted sequences then
-            if prios != sorted(prios):
+            if not ambiguous and prios != sorted(prios):
                 dup = len(set(calls)) != len(calls)
                 if not dup:
                     raise Violation("c08:priority-order", "bucket %d executed priorities %r" % (cur, prios))
+            if spawned_here:
+                classes.add("callback-scheduled-into-current-frame")
             if len(b) >= 3 and len(set(x["prio"] for x in b)) >= 2 and wrapped:
                 nontrivial = True
                 classes.add("multi-prio-bucket-after-wrap")
